@@ -150,3 +150,5 @@ def run(ck, F):
     for r in (r15_1, r15_2, r15_3):
         ck.run_rule(r)
     ck.run_rule(c04.r04_3)
+    import c06
+    ck.run_rule(c06.r06_5)     # the remote receiver's forwarder applies every received value / error and ends only on a final error
